@@ -182,6 +182,14 @@ def exec2 (toks : List String) : String :=
       if which == "c" then pure (showCps (Display.display lam' t))
       else if which == "d" then pure (showCps (Display.debug lam' t))
       else none).getD "bad-op"
+  | "showu" :: which :: lam :: rest =>
+    -- the printers on terms CONTAINING UD (outside the domain of C10 and C11: an advisory operation)
+    (do
+      let lam' ← lam.toNat?
+      let (t, _) ← decTerm rest
+      if which == "c" then pure (showCps (Display.display lam' t))
+      else if which == "d" then pure (showCps (Display.debug lam' t))
+      else none).getD "bad-op"
   | "enc" :: e :: n :: _ =>
     (do
       let e' ← encOf e
